@@ -466,6 +466,7 @@ class LibMixin:
     def b_list_append(self, args, kwargs, node, anchor):
         self.check_owned(args[0], node, "append")
         self.list_append(Val.r(args[0]), args[1])
+        self.st.log.append(LogEntry("list.append", [args[0], args[1]], {}, None, anchor))
         return VNone
 
     def b_list_appendleft(self, args, kwargs, node, anchor):
